@@ -87,13 +87,21 @@ let gen_history (idx : int) (prof : eprofile) (oc : out_channel) =
     | [] -> ()
     | l ->
       let route = pick l in
-      let name = join (List.map (fun lv -> if lv = [nn 43] then bs "x" else if lv = [nn 35] then bs ("n" ^ string_of_int (rnd 3)) else lv) route) in
+      let mk_name () = join (List.map (fun lv -> if lv = [nn 43] then bs (pick ["x"; "y"]) else if lv = [nn 35] then bs ("n" ^ string_of_int (rnd 4)) else lv) route) in
+      let name0 = mk_name () in
+      let same = coin () in
       let q = pickw [ (3, 0); (4, 1); (4, 2) ] in
       let n = if rnd 100 < prof.e_burst then 2 + rnd 2 else 1 in
-      for k = 1 to n do
-        emit_or_skip (Printf.sprintf "BPUB PUBLISH dup=0 qos=%d retain=0 topic=%s mid=%d payload=%s" q (hex_of_bytes name)
-                        (if q = 0 then 0 else 500 + rnd 400 + k) (payload ()))
-      done in
+      let spec k = Printf.sprintf "PUBLISH dup=0 qos=%d retain=0 topic=%s mid=%d payload=%s" q (hex_of_bytes (if same then name0 else mk_name ()))
+          (if q = 0 then 0 else 500 + 3 * rnd 130 + k) (hex_of_bytes (List.init (1 + k) (fun j -> nn ((j * 7 + k + rnd 50) land 255)))) in
+      if n > 1 && prof.e_lossy = 0 && coin () then
+        (* a true burst: the gateway handles all of them before the client's first answer arrives *)
+        emit_or_skip ("BBURST " ^ String.concat " | " (List.init n (fun k -> spec (k + 1))))
+      else
+        for k = 1 to n do emit_or_skip ("BPUB " ^ spec k) done;
+      (* within the fault budget: every other time wait past the deadline by which the monitor wants the
+         message delivered and acknowledged (C16), before the program goes on (and may disconnect) *)
+      if prof.e_lossy > 0 && nfault <= rcount && coin () then adv (4 * (rcount + 1) * (max gdelay cdelay) + 1100 + rnd 200) in
   call "CONNECT"; settle ();
   let len = 3 + rnd 14 in
   let k = ref 0 in
@@ -123,6 +131,8 @@ let gen_history (idx : int) (prof : eprofile) (oc : out_channel) =
   done;
   if !y.y_cl.cl_st = Active && not !y.y_cl.cl_exited && !y.y_cl.cl_cancelled = None && rnd 4 > 0 then (call "DISCONNECT"; settle ());
   adv (1200 + rnd 300);
+  (* past the deadline by which the monitor expects every broker message delivered and acknowledged (C16) *)
+  if prof.e_lossy > 0 && nfault <= rcount then adv (4 * (rcount + 1) * (max gdelay cdelay) + 1100 + rnd 300);
   output_string oc "END\n"
 
 let profiles = [|
